@@ -155,6 +155,19 @@ class SiteAnalysis:
                 return
             return
         if k in ("seq", "list"):
+            h = self.disp.handler(ty)
+            if h[0] == "hook":
+                # a hook that takes the whole array (registered with a predicate on the sequence type): the array type is
+                # the site, its element alternatives are judged through the hook's element expression
+                key = (ty, with_none)
+                s = self.sites.get(key)
+                if s is None:
+                    s = Site(ty, with_none)
+                    s.handler_kind = self.disp.handler_kind(ty)
+                    self.sites[key] = s
+                if origin not in s.origins:
+                    s.origins.append(origin)
+                return
             self._visit(ty[1], origin + "[]", True, depth + 1)
         elif k == "map":
             self._visit(ty[1], origin + "{key}", True, depth + 1)
